@@ -193,7 +193,8 @@ class Check(sc.SCheck):
     case_budget_s = 90.0
     rule = ("Two parts. (1) The timer double heap is driven through the guarded shim with rapidcheck command sequences (10-2500 inserts/removes/updates, key ranges from 2 "
             "(many ties) to 2^40) and compared after every step with two sorted multisets: count, minimum by target and by deadline, heap order of every slot, back-indices, "
-            "invalidation of removed records; all shapes with <= 6 timers are enumerated. (2) Hypothesis recipe -> program with 1-24 timer sources on the uptime, wall and "
+            "invalidation of removed records, and - whenever the earliest target or deadline of the armed set changed - that the heap raised its 're-program the kernel "
+            "timer' flag; all shapes with <= 6 timers are enumerated. (2) Hypothesis recipe -> program with 1-24 timer sources on the uptime, wall and "
             "monotonic clocks (start in the past / now / +50us..+20ms, one-shot or 100us-20ms intervals, leeway, strict flag, handlers of varied length to force the "
             "missed-interval path), handlers that replace their own settings or cancel at their n-th invocation, threads that replace the settings while the source is "
             "certainly suspended, suspend/resume, cancel, and dispatch_after with 0-10 ms delays on three clocks. Oracles: inside each handler / after-block the matching "
